@@ -23,6 +23,16 @@ type specEnv struct {
 	at    ssa.Instruction // resolution point (may be nil)
 	loop  *loopInfo       // when resolving at a loop header
 	depth int
+	inOld bool
+}
+
+func (e *specEnv) isParam(v *types.Var) bool {
+	for _, p := range e.fr.fn.Params {
+		if p.Object() == v {
+			return true
+		}
+	}
+	return false
 }
 
 func (e *specEnv) fail(n ast.Node, format string, a ...any) {
@@ -92,6 +102,15 @@ func (e *specEnv) typeOf(n ast.Expr) types.Type {
 
 func (e *specEnv) lookupObj(n ast.Node, obj types.Object) Val {
 	if v, ok := e.vars[obj]; ok {
+		// in-body clauses (invariants, at-call/at-store asserts) see the current value of a reassigned parameter;
+		// old(p) and pre/postconditions see its entry value
+		if e.fr != nil && !e.inOld {
+			if pv, isVar := obj.(*types.Var); isVar && e.isParam(pv) {
+				if cur, ok := e.x.resolveLocal(e, pv); ok {
+					return cur
+				}
+			}
+		}
 		return v
 	}
 	switch o := obj.(type) {
@@ -320,9 +339,10 @@ func (e *specEnv) selectPath(n ast.Node, v Val, t types.Type, path []int) Val {
 }
 
 func (e *specEnv) withState(cur *State, f func() Val) Val {
-	saved := e.cur
+	saved, savedOld := e.cur, e.inOld
 	e.cur = cur
-	defer func() { e.cur = saved }()
+	e.inOld = true
+	defer func() { e.cur, e.inOld = saved, savedOld }()
 	return f()
 }
 
